@@ -12,7 +12,7 @@ _SHAPE = "ONE code shape with CONCRETE opcode positions ({shape}) and ALL immedi
 _K = lambda h, bound, t, **kw: dict(crate="kinterp", harness="c04::" + h, bounded=True, bound=bound, timeout=t, mem_gb=12, **kw)
 _KANI = [
     # quick tier: the shape that separates "JUMPDEST hidden in push data" from a real one (474 s under load)
-    _K("shape_push1_data", _SHAPE.format(shape="PUSH1 d JUMPDEST, L = 3"), 1200),
+    _K("shape_push1_data", _SHAPE.format(shape="PUSH0 DUP1 PUSH1 d JUMPDEST, L = 5"), 1200),
     # thorough tier
     _K("table_len0", _ALL.format(n=0), 900, thorough_only=True),                                               # 142 s
     _K("shape_trunc_push32", _SHAPE.format(shape="JUMPDEST PUSH32 truncated by the end of code, L = 2"), 1200, thorough_only=True),  # 345 s
@@ -27,7 +27,7 @@ PROP = dict(
     level="proof",
     engine="verus+kani",
     units=["jump"],
-    kani=[],  # TEMP-NO-KANI (restored after the Verus mutation batch)
+    kani=_KANI,
     technique="Verus contracts on the extracted jump instructions and the table lookup chain (unbounded: every table, every 256-bit target); "
               "Kani bounded harnesses for the raw-pointer construction of the table",
     level_text="PROOF (Verus, unbounded) of the jump DECISION: control::jump, jumpi, jump_inner, jumpdest_or_nop, pc with the verbatim "
